@@ -692,6 +692,39 @@ theorem build_and_sign_total (E : Env) (clock0 : Timestamp.Instant) (S : Sign.Si
   refine Out.bind_not_panic (hsigner _ _) (fun sig _ => ?_)
   exact Out.bind_not_panic (Sign.sigBuilderBuild_not_panic _ _ _) (fun _ _ => rfl)
 
+/-- no call moves the large-file limit -/
+theorem run_keeps_threshold {sha256hex : Bytes → Bytes} {valid : Bytes → Bool} (calls : List Build.Call) (s0 s1 : St)
+    (h : run sha256hex valid calls s0 = .ok s1) : s1.base.largeFileThreshold = s0.base.largeFileThreshold := by
+  rw [run_base h]
+  exact (new_args_kept _ _).2.2.2.2.2.2.2
+
+/-- **the large-file switch at its real boundary** (audit items a3 / a22): for the state any call sequence on a fresh builder
+leaves, `uses_large_files` — computed from the `size` fields — is "the CONTENTS sum to more than `u32::MAX` bytes"
+(`entry.size` is `content.len()`), and without it the combined size and every single size fit a `u32`: the two `expect`s of
+`prepare_data` (RPMTAG_SIZE, RPMTAG_FILESIZES) and the `content.len() as u32` of the cpio header lose nothing -/
+theorem large_file_switch {sha256hex : Bytes → Bytes} {valid : Bytes → Bool} {calls : List Build.Call}
+    {name version license arch summary : Bytes} {dc : Bld.Comp} {s : St}
+    (h : run sha256hex valid calls (St.new name version license arch summary dc) = .ok s) :
+    (usesLargeFiles s.cfg = true ↔ (s.fes.map (·.2.length)).sum > 4294967295) ∧
+    (usesLargeFiles s.cfg = false →
+      combinedSize s.cfg < 4294967296 ∧ ∀ p ∈ s.fes, p.1.size < 4294967296 ∧ p.2.length < 4294967296) := by
+  obtain ⟨inv, _⟩ := (inv_new name version license arch summary dc).run h
+  have hthr : s.cfg.largeFileThreshold = 4294967295 := by
+    show s.base.largeFileThreshold = 4294967295
+    rw [run_keeps_threshold calls _ s h]; rfl
+  have hsum : combinedSize s.cfg = (s.fes.map (·.2.length)).sum := by
+    simp only [combinedSize, St.cfg, List.map_map]
+    exact congrArg List.sum (List.map_congr_left (fun p hp => inv.size p hp))
+  refine ⟨?_, fun hl => ?_⟩
+  · simp only [usesLargeFiles, hthr, hsum, decide_eq_true_eq]
+  · have hle : combinedSize s.cfg ≤ 4294967295 := by simpa [usesLargeFiles, hthr] using hl
+    refine ⟨by omega, fun p hp => ?_⟩
+    have h1 : p.1.size ≤ combinedSize s.cfg := by
+      simp only [combinedSize, St.cfg, List.map_map]
+      exact PWriter.sum_le_of_mem (List.mem_map_of_mem (f := fun q : FileE × Bytes => q.1.size) hp)
+    have := inv.size p hp
+    omega
+
 /-- the variant indices `Build.compVariant` writes out are the positions of the names in `enum CompressionWithLevel` -/
 theorem comp_variant_table : Gen.levelVariants = ["None", "Zstd", "Gzip", "Xz", "Bzip2"] := rfl
 
